@@ -143,16 +143,22 @@ def _alarms(spec, real, protos, full):
     # pickling: give the original (and every nested task) runtime state first
     inside = all_tasks_inside(t)
     for x in inside:
-        x.set_context({'big': 'context'})
-        x._set_results_map({'some': 'map'})
+        # (the context holds something that cannot be pickled, as a Lab context legally may under serial/fork)
+        x.set_context({'big': 'CTX-MARKER-9f3', 'fn': (lambda: 0)})
+        x._set_results_map({'some': 'MAP-MARKER-5c1'})
         x._set_result_meta(ResultMeta(start=None, duration=None))
     try:
         for proto in protos:
             try:
-                u = pickle.loads(pickle.dumps(t, protocol=proto))
+                blob = pickle.dumps(t, protocol=proto)
+                u = pickle.loads(blob)
             except Exception as e:
-                out.append(f'pickle round trip (protocol {proto}) raised {type(e).__name__}: {e}')
+                out.append(f'pickle round trip (protocol {proto}) of a task that carries a context raised {type(e).__name__}: {e}')
                 continue
+            if b'CTX-MARKER-9f3' in blob:
+                out.append(f'the pickle (protocol {proto}) of a task carries its context with it')
+            if b'MAP-MARKER-5c1' in blob:
+                out.append(f'the pickle (protocol {proto}) of a task carries its results map with it')
             if not (u == t and hash(u) == h):
                 out.append(f'pickled copy (protocol {proto}) is not equal / has another hash')
             if pg.show(u) != real['nf']:
